@@ -1,7 +1,8 @@
 #!/bin/sh
 # run every quick check on the current tree, refresh evidence, report exit codes and timing
-cd /verif
+cd "$(dirname "$0")/.." || exit 2
+mkdir -p .work
 for p in C01 C02 C03 C04 C05 C06 C07 C08 C09 C10 C11 C12 C13 C14 C15 C16 C17 C18 C19 C20; do
-  s=$(date +%s); ./check $p --tier ${1:-quick} > /tmp/out.$p 2>&1; rc=$?
-  echo "$p exit=$rc $(( $(date +%s) - s ))s viol=$(grep -c '^VIOLATION' /tmp/out.$p) known=$(grep -c '^KNOWN' /tmp/out.$p)"
+  s=$(date +%s); ./check $p --tier ${1:-quick} > .work/out.$p 2>&1; rc=$?
+  echo "$p exit=$rc $(( $(date +%s) - s ))s viol=$(grep -c '^VIOLATION' .work/out.$p) known=$(grep -c '^KNOWN' .work/out.$p)"
 done
